@@ -53,6 +53,9 @@ func genConfig(job *simkit.Job, rng *simkit.RNG, idx int64) (Config, []Action, b
 	cfg.DeriveCtx = rng.Chance(1, 2)
 	cfg.IOSameHost = rng.Chance(1, 3)
 	cfg.LogPark = rng.Chance(1, 3)
+	cfg.HeldShut = rng.Chance(1, 2)
+	cfg.LateClose = rng.Chance(1, 3)
+	cfg.Burst = rng.Chance(1, 2)
 	cfg.Listeners = rng.Intn(3)
 	cfg.MaxSteps = rng.Range(15, 120)
 	cfg.MaxAttempts = rng.Range(2, 40)
@@ -236,6 +239,25 @@ func (s *sim) generate() (Action, bool) {
 		add(Action{K: "start_out", B: s.pickID()}, W.StartOut)
 		k, p, f = wk()
 		add(Action{K: "start_io", S: k, P: p, N: f}, W.StartIO)
+		if s.cfg.Burst {
+			k, p, f = wk()
+			add(Action{K: "burst_io", S: k, P: p, N: f, C: r.Range(2, 4)}, (W.StartIO+1)/2)
+		}
+		// a per-request key of an /io request that is short enough to be guessed
+		// is a callback ID a remote client can present: let one try it (and the
+		// one a counter would give next)
+		for _, id := range s.guessableKeys() {
+			add(Action{K: "start_out", B: []byte(id)}, 6)
+			k, p, f = wk()
+			add(Action{K: "start_in", B: []byte(id), S: k, P: p, N: f}, 6)
+		}
+	}
+	if s.cfg.LateClose {
+		for _, at := range s.atts {
+			if at.returned && !at.closedTrans && !at.closeDue {
+				add(Action{K: "close_trans", A: at.id}, 4)
+			}
+		}
 	}
 	s.mu.Lock()
 	parks := append([]*park(nil), s.parks...)
@@ -253,7 +275,7 @@ func (s *sim) generate() (Action, bool) {
 		add(Action{K: "recv"}, W.Recv)
 	}
 	for _, at := range s.atts {
-		if at.r != nil && at.r.parked != nil && !at.r.closed && at.out.attachedR {
+		if at.r != nil && at.r.parked != nil && !at.r.closed && at.out.attachedR && !at.returned {
 			add(Action{K: "read_done", A: at.id, B: s.genData(at, r.Range(1, max(1, s.cfg.ReadMax)))}, W.ReadData)
 			add(Action{K: "read_done", A: at.id, B: s.genData(at, r.Range(2049, 20000))}, W.ReadBig)
 			e := s.cfg.ReadErrs[r.Intn(len(s.cfg.ReadErrs))]
@@ -283,4 +305,43 @@ func (s *sim) generate() (Action, bool) {
 		return Action{}, false
 	}
 	return cands[i], true
+}
+
+// guessableKeys: per-request keys the hooks have shown for /io requests that
+// are shorter than 12 bytes (a random key that cannot be guessed is longer),
+// and for those that end in a decimal number the key with the next number.
+func (s *sim) guessableKeys() []string {
+	seen := map[string]bool{}
+	var out []string
+	add := func(k string) {
+		if !seen[k] {
+			seen[k] = true
+			out = append(out, k)
+		}
+	}
+	for _, at := range s.atts {
+		if at.kind != "io" {
+			continue
+		}
+		for _, h := range at.halves() {
+			k := h.key
+			if k == "" || len(k) >= 12 {
+				continue
+			}
+			add(k)
+			i := len(k)
+			for i > 0 && k[i-1] >= '0' && k[i-1] <= '9' {
+				i--
+			}
+			if i < len(k) && len(k)-i < 9 {
+				var n int
+				fmt.Sscanf(k[i:], "%d", &n)
+				add(fmt.Sprintf("%s%d", k[:i], n+1))
+			}
+		}
+	}
+	if len(out) > 0 {
+		s.probes["guessable_io_key_seen"]++
+	}
+	return out
 }
